@@ -100,7 +100,7 @@ def c11(prop, tier, seed):
 G_ASSUMPTIONS = [
     "bounded (programs): the quantifier over programs is replaced by the fixture corpus generated by kani/gen_fixtures.py (listed under coverage.fixtures); the quantifier over argument values, block height, sender length is universal (symbolic, full domain)",
     "Kani 0.68 / CBMC 6.11 / CaDiCaL are trusted; Kani results are partial correctness (termination not proved); unwinding assertions stay on",
-    "std::backtrace::Backtrace::capture and alloc::fmt::format are stubbed in harnesses that can construct a StdError (error text / backtrace not modelled)",
+    "std::backtrace::Backtrace::capture and alloc::fmt::format are stubbed in harnesses that can construct a StdError (formatted error text / backtrace not modelled; the unformatted text of a StdError::GenericErr is observed, by length and first byte, where a C07 clause names it)",
     "Storage/Api/Querier are small recording dummies; funds are empty; heap payloads are 0-2 bytes",
     "wire shape is stated on the serde data model (recording Serializer / scripted self-describing Deserializer); serde_json's struct->text and text->events steps are a dependency and assumed",
     "expected names, field names, argument order and handler numbers come from the table in kani/gen_fixtures.py (the method signatures), not from the macro output",
@@ -231,7 +231,7 @@ REGISTRY = {
     "C05": c05, "C11": c11,
     "C06": g_prop("C06: (KT) the override-kind table and the sv::msg kind table, lifted verbatim from sylvia-derive, are proved equal on every ASCII string up to 24 bytes, and the entry-point / message / accessor names are the documented ones and injective on kinds; (T) on the fixture corpus every non-overridden entry point exists with the documented signature taking the kind's wrapper type; (G) each emitted entry point builds the contract with new(), dispatches the message with the given deps/env/info and returns the dispatch outcome.",
                   uncovered=["absence of an overridden entry point is not expressible as an obligation on compiled code", "override subsets other than those in the fixture corpus"], kernels=True),
-    "C07": g_prop("C07 on the reply fixtures (success-only, error-only, both via two methods in both declaration orders, always, one method bound to two names, typed-payload names): for each declared handler name (concrete id) and each outcome, for all gas_used / events (0-2) / data / raw payload bytes / error text (0-2 bytes): the method declared for that outcome (or always) runs with gas_used in the context, events and msg_responses for success, the error text or the full result as declared, the raw payload byte for byte; an outcome with no method is answered as if no reply had been requested (events and data passed through / that error); every id beyond the table is an error and no handler runs. KT: ReplyOn::new and ReplyOn::excludes.",
+    "C07": g_prop("C07 on the reply fixtures (success-only, error-only, both via two methods in both declaration orders, always, one method bound to two names, typed-payload names): for each declared handler name (concrete id) and each outcome, for all gas_used / events (0-2) / data / raw payload bytes / error text (0-2 bytes): the method declared for that outcome (or always) runs with gas_used in the context, events and msg_responses for success, the error text or the full result as declared, the raw payload byte for byte; an outcome with no method is answered as if no reply had been requested (events and data passed through / that error with the sub-message's own error text: length and first byte); every id beyond the table is an error and no handler runs. KT: ReplyOn::new and ReplyOn::excludes.",
                   uncovered=["typed (JSON) payloads at dispatch: from_json is out of CBMC's reach", "msg_responses other than empty"], kernels=True),
     "C08": g_prop("C08 on the reply fixtures: for each handler name and each receiver (SubMsg, WasmMsg, CosmosMsg) the generated builder stamps <NAME>_REPLY_ID, requests a reply for exactly the outcomes that have a method (both or always => Always), keeps the wrapped message and, for an existing SubMsg, its gas limit (all Option<u64>), and carries a raw payload byte for byte; reply ids are pairwise distinct (const assertion).",
                   uncovered=["typed payload JSON round trip (needs a parser): only the builder half is decided, for integer payloads (thorough) and for a lone typed Binary (quoted string vs raw)"],
